@@ -13,6 +13,7 @@ import (
 	"context"
 	"errors"
 	"fmt"
+	"runtime"
 	"strings"
 	"sync"
 	"sync/atomic"
@@ -351,5 +352,193 @@ func nestedCallAtLinkDeadline(rep *Report, prop, api string) {
 	note := p.B.Svc.Notes()[0]
 	if strings.HasSuffix(note, "|<nil>") {
 		rep.addViolation("property", prop+":"+api+":link-deadline:nil-error", fmt.Sprintf("the callee's link ran into its DEADLINE while its handler had a closure invocation in flight (the caller never answered it): the invocation returned %s to the handler — a nil error although no response was ever sent", note), d)
+	}
+}
+
+// cancelRaceWorkload (C01, C09, C10): many workers call FailVal with unique values and messages on one link; every
+// other call is abandoned by its caller (per-call context cancelled at about the round-trip time, i.e. while the
+// response is on its way). Every call that returns a value or an application error got ITS OWN handler's value and
+// message — a response published for an abandoned call never reaches another call.
+func cancelRaceWorkload(rep *Report, prop string, dur time.Duration) {
+	rep.Evaluations++
+	rep.Distinct++
+	d := map[string]any{"suite": "cancel-racing-response", "duration_ms": dur.Milliseconds()}
+	p, err := NewPair(jsonRaw(), PairOpts{API: "message"})
+	if err != nil {
+		rep.addViolation("property", prop+":cancel-race:setup", "link setup failed: "+err.Error(), d)
+		return
+	}
+	defer p.Shutdown()
+	ra, _, _ := p.A.AnyRemote()
+	// the handler abandons the caller's context just before it returns (for the calls registered here)
+	var cancels sync.Map
+	p.B.Svc.OnReturn.Store(func(v int) {
+		if c, ok := cancels.LoadAndDelete(v); ok {
+			c.(context.CancelFunc)()
+		}
+	})
+	defer p.B.Svc.OnReturn.Store(func(int) {})
+	stop := time.Now().Add(dur)
+	var bad atomic.Value
+	var calls, abandoned int64
+	var wg sync.WaitGroup
+	workers := 4 * runtime.GOMAXPROCS(0)
+	if workers < 32 {
+		workers = 32
+	}
+	for w := 0; w < workers; w++ {
+		w := w
+		wg.Add(1)
+		go func() {
+			defer wg.Done()
+			for i := 0; time.Now().Before(stop) && bad.Load() == nil; i++ {
+				val := w*10000000 + i
+				msg := fmt.Sprintf("failure %d/%d", w, i)
+				withErr := i%3 != 0
+				ctx, cancel := context.WithCancel(context.Background())
+				if i%2 == 1 {
+					cancels.Store(val, cancel)
+				}
+				v, err := ra.ValCancel(ctx, val, msg, withErr)
+				cancels.Delete(val)
+				cancel()
+				atomic.AddInt64(&calls, 1)
+				if errors.Is(err, context.Canceled) {
+					atomic.AddInt64(&abandoned, 1)
+					continue
+				}
+				got := "<nil>"
+				if err != nil {
+					got = err.Error()
+				}
+				want := "<nil>"
+				if withErr {
+					want = msg
+				}
+				if v != val || got != want {
+					bad.Store(fmt.Sprintf("ValCancel(%d, %q, %v): the handler returned (%d, %s); the caller got (%d, %s) — another call's response", val, msg, withErr, val, want, v, got))
+					return
+				}
+			}
+		}()
+	}
+	wg.Wait()
+	d["calls"], d["abandoned"] = atomic.LoadInt64(&calls), atomic.LoadInt64(&abandoned)
+	rep.sample(d)
+	if m := bad.Load(); m != nil {
+		rep.addViolation("property", prop+":cancel-race:crossed", m.(string)+fmt.Sprintf(" (%d calls, %d abandoned in flight)", calls, abandoned), d)
+	}
+}
+
+// linksAfterAHandlerPanic (C13): one hub registry with two healthy links and further links that die because a handler
+// PANICS (the failure of a link through the recover path of utils.Call). Afterwards concurrent same-arity traffic
+// on the healthy links: every call made through link i's remote is answered by link i's peer with ITS OWN message.
+func linksAfterAHandlerPanic(rep *Report, prop string, dur time.Duration) {
+	rep.Evaluations++
+	rep.Distinct++
+	d := map[string]any{"suite": "links-after-a-handler-panic", "duration_ms": dur.Milliseconds()}
+	jb := jsonBytes()
+	hub := newSide[[]byte]("H")
+	type sp struct {
+		peer *Side[[]byte]
+		qs   [4]*Queue
+		stop context.CancelFunc
+		err  chan error
+	}
+	var spokes []*sp
+	link := func(side *Side[[]byte], ctx context.Context, outReq, outRes, inReq, inRes *Queue, errc chan error) {
+		go func() {
+			e := side.Reg.LinkMessage(ctx,
+				func(t []byte) error { return outReq.Put(t) }, func(t []byte) error { return outRes.Put(t) },
+				func() ([]byte, error) { return inReq.Get() }, func() ([]byte, error) { return inRes.Get() },
+				jb.Marshal, jb.Unmarshal, nil)
+			if errc != nil {
+				errc <- e
+			}
+		}()
+	}
+	add := func(name string) *sp {
+		s := &sp{peer: newSide[[]byte](name), err: make(chan error, 1)}
+		for j := range s.qs {
+			s.qs[j] = NewQueue()
+		}
+		ctx, cancel := context.WithCancel(context.Background())
+		s.stop = cancel
+		link(hub, ctx, s.qs[0], s.qs[1], s.qs[2], s.qs[3], s.err)
+		link(s.peer, ctx, s.qs[2], s.qs[3], s.qs[0], s.qs[1], nil)
+		spokes = append(spokes, s)
+		return s
+	}
+	defer func() {
+		for _, s := range spokes {
+			s.stop()
+			for _, q := range s.qs {
+				q.Close(errors.New("closed"))
+			}
+		}
+	}()
+	add("P0")
+	add("P1")
+	waitFor(func() bool { return len(hub.Remotes()) == 2 })
+	type target struct {
+		name string
+		rem  Remote
+	}
+	var ts []target
+	for _, rem := range hub.Remotes() {
+		rem := rem
+		r := withWatchdog(func() (any, error) { return rem.WhoAmI(context.Background()) })
+		if !r.ok || r.err != nil {
+			rep.addViolation("property", prop+":after-panic:setup", fmt.Sprintf("WhoAmI failed: %+v", r), d)
+			return
+		}
+		ts = append(ts, target{strings.SplitN(r.val.(string), "|", 2)[0], rem})
+	}
+	if len(ts) != 2 {
+		rep.addViolation("property", prop+":after-panic:setup", "two links did not come up", d)
+		return
+	}
+	// links that fail through a panicking handler: each victim peer asks the hub to panic (a one-argument handler,
+	// the same arity as the traffic below)
+	for v := 0; v < 6; v++ {
+		s := add(fmt.Sprintf("V%d", v))
+		waitFor(func() bool { return len(s.peer.Remotes()) == 1 })
+		if vr, _, ok := s.peer.AnyRemote(); ok {
+			go vr.Panic(context.Background(), fmt.Sprintf("boom victim %d", v))
+		}
+		select {
+		case <-s.err:
+		case <-time.After(watchdog):
+		}
+	}
+	stop := time.Now().Add(dur)
+	var bad atomic.Value
+	var calls int64
+	var wg sync.WaitGroup
+	for _, t := range ts {
+		for g := 0; g < 8; g++ {
+			t, g := t, g
+			wg.Add(1)
+			go func() {
+				defer wg.Done()
+				for i := 0; time.Now().Before(stop) && bad.Load() == nil; i++ {
+					msg := fmt.Sprintf("%s-caller%d-call%d", t.name, g, i)
+					c, cancel := context.WithTimeout(context.Background(), watchdog)
+					err := t.rem.Fail(c, msg)
+					cancel()
+					atomic.AddInt64(&calls, 1)
+					if err == nil || err.Error() != msg {
+						bad.Store(fmt.Sprintf("after %d links had failed through a panicking handler, call Fail(%q) through %s's remote returned %v: not the answer of that link's peer to that call", 6, msg, t.name, err))
+						return
+					}
+				}
+			}()
+		}
+	}
+	wg.Wait()
+	d["calls"] = atomic.LoadInt64(&calls)
+	rep.sample(d)
+	if m := bad.Load(); m != nil {
+		rep.addViolation("property", prop+":after-panic:crossed", m.(string), d)
 	}
 }
